@@ -144,7 +144,12 @@ class Context(object):
     with open(tmp, 'w') as f:
       json.dump(ev, f, indent=1, sort_keys=True)
     os.replace(tmp, path)
-    validate_evidence(path)
+    try:
+      validate_evidence(path)
+    except HarnessError:
+      if not self.violations:
+        raise
+      # a run that found violations may legitimately have few passing cases; the verdict stands
     return 1 if self.violations else 0
 
 
